@@ -163,6 +163,32 @@ func Gen(prop string, r *sim.Rand, tier string) sim.Script {
 		nKeys = 150 + r.Intn(300)
 	}
 	s.Keys = keyPool(r, nKeys)
+	if bulk && r.Chance(1, 3) {
+		// staircase: one spine key and, for every nibble position, a key that leaves the spine exactly there:
+		// the spine key's path has a branch at each of its 64 levels (the longest proofs / deepest paths possible)
+		spine := make([]byte, 32)
+		for i := range spine {
+			spine[i] = byte(r.U64())
+		}
+		s.Keys = []string{hex.EncodeToString(spine)}
+		for pos := 0; pos < 64; pos++ {
+			k := make([]byte, 32)
+			for i := range k {
+				k[i] = byte(r.U64())
+			}
+			copy(k, spine[:pos/2])
+			if pos%2 == 0 {
+				k[pos/2] = (spine[pos/2] ^ 0x10 ^ byte(r.Intn(14)+1)<<4&0xf0) | (k[pos/2] & 0x0f)
+				if k[pos/2]>>4 == spine[pos/2]>>4 {
+					k[pos/2] ^= 0x10
+				}
+			} else {
+				k[pos/2] = spine[pos/2]&0xf0 | (spine[pos/2]&0x0f ^ byte(1+r.Intn(15)))
+			}
+			s.Keys = append(s.Keys, hex.EncodeToString(k))
+		}
+		nKeys = len(s.Keys)
+	}
 	// a small value domain makes identical (value, weight) pairs on different keys common
 	small := r.Chance(1, 3)
 	if prop != "C11" {
@@ -323,6 +349,7 @@ func Gen(prop string, r *sim.Rand, tier string) sim.Script {
 		if r.Chance(1, 5) {
 			ex.A = 1 + r.Intn(12) // separate fault-injecting configuration: one storage read of the export fails
 		}
+		ex.B = r.Intn(8) // 1 and 5: export from a CopyRoot snapshot while the original moves on
 		for j := 0; j < nreq; j++ {
 			ex.S = append(ex.S, r.Intn(len(s.Keys)))
 		}
